@@ -40,11 +40,15 @@ def outcomeStr (s : Src) : Outcome (Resource Span × List PErr) → String
   | .panic m => "PANIC(" ++ m ++ ")"
   | .outOfFuel => "OUT-OF-FUEL"
 
-def run (payload : String) : String :=
-  match hexDecode payload with
+def runOne (h : String) : String :=
+  match hexDecode h with
   | none => "bad-case"
   | some bs =>
     let s : Src := bs.toArray
     "F " ++ outcomeStr s (parse s) ++ " R " ++ outcomeStr s (parseRuntime s)
+
+/-- payload = one hex source, or several separated by `|` (observations joined by ` | `) -/
+def run (payload : String) : String :=
+  " | ".intercalate ((payload.splitOn "|").map runOne)
 
 end FluentModel.Drv.ParseDrv
